@@ -207,6 +207,34 @@ def explore(ctx, res, replay=None):
                              (2, [('t', 3), ('n', 0), ('t', 4)]), (2, [('t', 3)])], 'classic'))
         grams.append((1, 2, [(0, [('t', 1), ('n', 0), ('t', 1)]), (0, [('t', 2)]), (0, [])], 'classic'))
         grams.append((2, 3, [(0, [('t', 1), ('n', 0)]), (0, [('t', 1), ('n', 0), ('t', 2), ('n', 0)]), (0, [('t', 3)])], 'classic'))
+        # grammars in which one state predicts the same non-terminal with different, overlapping lookahead sets, LR(1)-but-
+        # not-LALR and LALR-but-not-SLR grammars, L = R, lists: closure and lookahead propagation are what decides here
+        T = lambda i: ('t', i)
+        NT = lambda i: ('n', i)
+        CL = [
+            (3, 4, [(0, [NT(1), T(2)]), (0, [NT(1), NT(2), T(3)]), (1, [T(1)]), (2, [T(2)]), (2, [T(4)])]),
+            (3, 5, [(0, [T(1), NT(1), T(4)]), (0, [T(2), NT(2), T(4)]), (0, [T(1), NT(2), T(5)]), (0, [T(2), NT(1), T(5)]), (1, [T(3)]), (2, [T(3)])]),
+            (2, 4, [(0, [NT(1), T(1)]), (0, [T(2), NT(1), T(3)]), (0, [T(4), T(3)]), (0, [T(2), T(4), T(1)]), (1, [T(4)])]),
+            (3, 3, [(0, [NT(1), T(1), NT(2)]), (0, [NT(2)]), (1, [T(2), NT(2)]), (1, [T(3)]), (2, [NT(1)])]),
+            (2, 2, [(0, [NT(0), T(1), NT(1)]), (0, [NT(1)]), (1, [T(2)])]),
+            (2, 2, [(0, [NT(1), NT(0)]), (0, []), (1, [T(1)]), (1, [T(2), NT(1)])]),
+            (3, 3, [(0, [NT(1), NT(2)]), (1, [T(1), NT(1)]), (1, []), (2, [T(2), NT(2)]), (2, [T(3)])]),
+            (4, 4, [(0, [NT(1), T(1)]), (0, [NT(2), T(2)]), (1, [NT(3)]), (2, [NT(3), T(3)]), (3, [T(4)]), (3, [T(4), NT(3)])]),
+            (3, 4, [(0, [T(1), NT(1), T(2)]), (0, [T(1), NT(2), T(3)]), (1, [T(4)]), (1, [T(4), NT(1)]), (2, [T(4)]), (2, [NT(2), T(4)])]),
+        ]
+        for nnt_, nterm_, rules_ in CL:
+            grams.append((nnt_, nterm_, rules_, 'classic'))
+            # variants: one terminal renumbered (changes the order in which lookaheads are met), one rule dropped
+            for _ in range(3 if quick else 12):
+                a_, b_ = rng.randint(1, nterm_), rng.randint(1, nterm_)
+                sw = lambda sy: ('t', b_ if sy[1] == a_ else a_ if sy[1] == b_ else sy[1]) if sy[0] == 't' else sy
+                grams.append((nnt_, nterm_, [(l_, [sw(sy) for sy in r_]) for l_, r_ in rules_], 'classic_variant'))
+            k_ = rng.randrange(len(rules_))
+            grams.append((nnt_, nterm_, rules_[:k_] + rules_[k_ + 1:], 'classic_variant'))
+        for _ in range(150 if quick else 3000):
+            nnt = rng.randint(3, 4)
+            nterm = rng.randint(3, 4)
+            grams.append((nnt, nterm, random_grammar(rng, nnt, nterm, rng.randint(4, 7), 3), 'random_large'))
     maxlen = 4 if quick else 5
     # phase 1: tables only (FIRST, item sets, conflicts)
     pre = []
